@@ -1147,6 +1147,80 @@ func TestVerifReplay(t *testing.T) {
 func init() { replayGens["c11"] = replayC11 }
 
 func replayC11(o *Obligation) (string, string, string, bool) {
+	if strings.HasPrefix(o.Name, "serializableorderedmap.") {
+		src := `package serializableorderedmap
+
+import (
+	"fmt"
+	"testing"
+
+	"github.com/iotaledger/hive.go/serializer/v2/serix"
+)
+
+type rpEntry struct {
+	Weight uint16 ` + "`serix:\"\"`" + `
+	Flag   bool   ` + "`serix:\"\"`" + `
+}
+
+// oracle: Encode / Decode round-trips contents and order - for plain values, pointer values and pointer keys
+func TestVerifReplay(t *testing.T) {
+	api := serix.NewAPI()
+	plain := New[uint32, uint32]()
+	for i := uint32(0); i < 6; i++ {
+		plain.Set(100-i*7, i)
+	}
+	enc, err := plain.Encode(api)
+	if err != nil {
+		t.Fatalf("encode: %v", err)
+	}
+	back := New[uint32, uint32]()
+	if n, err := back.Decode(api, enc); err != nil || n != len(enc) {
+		t.Fatalf("REPLAY-VIOLATION SerializableOrderedMap[uint32,uint32]: Decode of the encoding returned (%d, %v), the encoding has %d bytes", n, err, len(enc))
+	}
+	show := func(m *SerializableOrderedMap[uint32, uint32]) (s string) {
+		m.ForEach(func(k, v uint32) bool { s += fmt.Sprintf("%d:%d ", k, v); return true })
+		return s
+	}
+	if show(back) != show(plain) {
+		t.Fatalf("REPLAY-VIOLATION SerializableOrderedMap[uint32,uint32] round trip: encoded %s decoded %s", show(plain), show(back))
+	}
+	ptr := New[uint32, *rpEntry]()
+	ptr.Set(3, &rpEntry{Weight: 30, Flag: true})
+	ptr.Set(1, &rpEntry{Weight: 10})
+	ptr.Set(2, &rpEntry{Weight: 20, Flag: true})
+	enc, err = ptr.Encode(api)
+	if err != nil {
+		t.Fatalf("encode: %v", err)
+	}
+	pback := New[uint32, *rpEntry]()
+	if _, err := pback.Decode(api, enc); err != nil {
+		t.Fatalf("decode: %v", err)
+	}
+	pshow := func(m *SerializableOrderedMap[uint32, *rpEntry]) (s string) {
+		m.ForEach(func(k uint32, v *rpEntry) bool { s += fmt.Sprintf("%d:%v ", k, *v); return true })
+		return s
+	}
+	if pshow(pback) != pshow(ptr) {
+		t.Fatalf("REPLAY-VIOLATION SerializableOrderedMap with pointer values, round trip: encoded %s decoded %s (the decoded entries share one value)", pshow(ptr), pshow(pback))
+	}
+	keys := New[*rpEntry, uint8]()
+	keys.Set(&rpEntry{Weight: 3}, 3)
+	keys.Set(&rpEntry{Weight: 1}, 1)
+	enc, err = keys.Encode(api)
+	if err != nil {
+		t.Fatalf("encode: %v", err)
+	}
+	kback := New[*rpEntry, uint8]()
+	if _, err := kback.Decode(api, enc); err != nil {
+		t.Fatalf("decode: %v", err)
+	}
+	if kback.Size() != 2 {
+		t.Fatalf("REPLAY-VIOLATION SerializableOrderedMap with pointer keys, round trip: %d entries encoded, %d decoded", keys.Size(), kback.Size())
+	}
+}
+`
+		return "ds", "serializableorderedmap", src, true
+	}
 	if !strings.HasPrefix(o.Name, "ds.set.") && !strings.HasPrefix(o.Name, "ds.setArithmetic.") && !strings.HasPrefix(o.Name, "ds.readableSet.") {
 		return "", "", "", false
 	}
